@@ -50,6 +50,9 @@ type lcPath struct {
 	// the loop heads of fn: a phi of a head in the middle of the path is never
 	// resolved through the path's predecessor (see opaque)
 	strictLoops map[*ssa.BasicBlock]bool
+	// fwd: loads on the path that read what a store earlier on the path wrote
+	// (a field of the receiver written and read again in one operation)
+	fwd map[ssa.Value]ssa.Value
 }
 
 // newLcPath prepares the context of one path; install a summary and
@@ -136,6 +139,10 @@ func (c *lcPath) problem(format string, args ...any) {
 // at resolves loads of single-assignment cells and phis along the path.
 func (c *lcPath) at(v ssa.Value) ssa.Value {
 	for i := 0; i < 12; i++ {
+		if w, ok := c.fwd[v]; ok {
+			v = w
+			continue
+		}
 		v = unwrapLoad(v)
 		ph, ok := v.(*ssa.Phi)
 		if !ok || c.opaque[ph.Block()] {
@@ -494,6 +501,13 @@ func (c *lcPath) sliceInfo(v ssa.Value) (linForm, bool) {
 				c.problem("the slice bounds at %s are not known to be within the %s lines (slice bounds out of range)", c.P.InstrPos(x), n.String())
 			}
 			return hi.add(lo, -1), clean
+		}
+	}
+	switch v.(type) {
+	case *ssa.Call, *ssa.Const, *ssa.MakeSlice, *ssa.Slice:
+		// append(…), nil, make, a slice of an array: lengths that are known
+		if n, ok := lenOfSlice(c, v, 0); ok {
+			return n, false
 		}
 	}
 	return c.sym("len:", v, 0), false
